@@ -441,7 +441,9 @@ class Engine:
                 if not self.binders:
                     names[h.get_id()] = (hc, h)
                 h = hc
-        tag = "s" if sorted_ else ""
+        # iteration order: one arbitrary but fixed function of the key set per kind of container (dict insertion
+        # order / sorted order / set order are unrelated to each other)
+        tag = sorted_ if isinstance(sorted_, str) else ("s" if sorted_ else "")
         size = self.w.func(f"dsize{tag}<{ks}>", hs, z3.IntSort())(h)
         order = self.w.func(f"dorder{tag}<{ks}>", hs, z3.ArraySort(z3.IntSort(), ks))(h)
         pf = self.w.func(f"dpos{tag}<{ks}>", hs, ks, z3.IntSort())
